@@ -287,7 +287,9 @@ def str_of(I, v):
         if v.kind == "str":
             return v
         if v.kind == "int":
-            return Sym(_STR_OF_INT(v.t))
+            if I.w.branch(ops.mk(v.t >= 0), "str(int) non-negative"):
+                return Sym(z3.IntToStr(v.t))
+            return Sym(z3.Concat(z3.StringVal("-"), z3.IntToStr(-v.t)))
         if v.kind == "real":
             return Sym(_STR_OF_REAL(v.t))
         if v.kind == "bool":
@@ -1280,7 +1282,12 @@ def make_builtins(I):
                 h = I.w.stubs.get("int_of_str")
                 if h is not None:
                     return h(I, v)
-                raise EngineError("int(symbolic str) needs a stub")
+                # decimal digit strings only (str.to_int is -1 otherwise): other accepted spellings of int()
+                # (whitespace, sign, underscores) are treated as ValueError - stated in the trusted base
+                n = z3.StrToInt(v.t)
+                if I.w.branch(ops.mk(n >= 0), "int(str) is a digit string"):
+                    return ops.mk(n)
+                I.raise_("ValueError", "invalid literal for int()")
         if isinstance(v, (int, float, str, bool)):
             try:
                 return int(v, *a[1:])  if isinstance(v, str) else int(v)
